@@ -15,9 +15,9 @@ DEMO=$(ls demo_*.py 2>/dev/null | head -1)
 echo "== patch: $(wc -l < "$OUT/patch.diff") lines; demo: $DEMO"
 T_WITH=$(PYTHONPATH=$WT /venv/bin/python -m pytest -q -p no:cacheprovider 2>&1 | tail -1)
 PYTHONPATH=$WT PYTHONHASHSEED=0 timeout 600 /venv/bin/python "$DEMO" > "$OUT/demo_with.log" 2>&1; D_WITH=$?
-git stash -q
+git checkout -- pyModelChecking
 PYTHONPATH=$WT PYTHONHASHSEED=0 timeout 600 /venv/bin/python "$DEMO" > "$OUT/demo_without.log" 2>&1; D_WITHOUT=$?
-git stash pop -q
+git apply "$OUT/patch.diff"
 echo "tests with change: $T_WITH"
 echo "demo exit with change: $D_WITH   without: $D_WITHOUT"
 # run our checks against the patched /repo
@@ -36,6 +36,7 @@ for c in $CHECKS; do
 done
 git -C /repo checkout -- .
 git -C /repo status --short | head -3
+git -C /verif checkout -q -- evidence      # evidence written against the patched tree is not evidence
 cat > "$OUT/run.txt" <<EOT
 tests_with_change: $T_WITH
 demo_exit_with_change: $D_WITH
